@@ -15,18 +15,74 @@
 
 package quickfix
 
-import "io"
+import (
+	"io"
+	"sync"
+	"time"
+)
 
+// writeDrainTimeout is how long a connection whose session has ended is given to take what is still queued.
+const writeDrainTimeout = 2 * time.Second
+
+// writeLoop writes the session's outbound messages to the connection until messageOut is closed.
+//
+// The session goroutine must never wait for the socket: while it waits it serves neither its timers nor its
+// inbound messages, so a counterparty that has stopped reading is never found dead, and two engines that both
+// replay a large backlog block each other for good. Messages are therefore taken off the channel at once
+// and written from a queue.
 func writeLoop(connection io.Writer, messageOut chan []byte, log Log) {
-	for {
-		msg, ok := <-messageOut
-		if !ok {
-			return
+	var mu sync.Mutex
+	var queue [][]byte
+	closed := false
+	wake := make(chan struct{}, 1)
+	notify := func() {
+		select {
+		case wake <- struct{}{}:
+		default:
 		}
+	}
 
-		if _, err := connection.Write(msg); err != nil {
-			log.OnEvent(err.Error())
+	written := make(chan struct{})
+	go func() {
+		defer close(written)
+		for {
+			mu.Lock()
+			batch, done := queue, closed
+			queue = nil
+			mu.Unlock()
+
+			for _, msg := range batch {
+				if _, err := connection.Write(msg); err != nil {
+					log.OnEvent(err.Error())
+				}
+			}
+
+			if len(batch) == 0 {
+				if done {
+					return
+				}
+				<-wake
+			}
 		}
+	}()
+
+	for msg := range messageOut {
+		mu.Lock()
+		queue = append(queue, msg)
+		mu.Unlock()
+		notify()
+	}
+
+	mu.Lock()
+	closed = true
+	mu.Unlock()
+	notify()
+
+	// The session has ended. What it sent last (a Logout) is still written; a connection that does not take
+	// it is given up: the caller closes it, which ends a Write that is stuck.
+	select {
+	case <-written:
+	case <-time.After(writeDrainTimeout):
 	}
 }
 
